@@ -334,7 +334,15 @@ def _truncation(prog, rep):
                 rep.ob("R11.2", f"{fi.name}[{kinds[18:-1]}]", False, f"the size check is `{src(one.test)[:50]}`: operands whose sizes differ the other way are paired element by element (silent truncation)", loc=f"{fi.module.rel}:{one.lineno}", detail="arm", robust=True)
                 continue
             if not (guarded and compares_left):
-                # positive only when the arm raises no size error at all and hands the check to nobody
+                # positive only when the arm raises no size error at all and hands the check to nobody -- and no size
+                # error is raised elsewhere in the function either (one check after the ladder, gated by a sentinel
+                # length, covers every arm that set the sentinel)
+                outside = [st for st in walk_local(fi.node, include_self=False) if isinstance(st, ast.If) and not any(st is x for b_ in body for x in ast.walk(b_)) and _raises_size_error(st.body)
+                           and any(k in src(st.test) for k in ("len(", ".size", ".shape", "length", "size", "shape"))]
+                outside = [st for st in outside if not any(st is x for x in ast.walk(ladders[-1]))]
+                if outside:
+                    rep.undecided(f"{fi.name}[{kinds[18:-1]}]: the arm raises no size error itself, but `{src(outside[0].test)[:50]}` outside the operand ladder does; whether it covers this operand kind is not followed")
+                    continue
                 if any(_raises_size_error([st]) for st in body) or _may_validate(prog, fi, body):
                     rep.undecided(f"{fi.name}[{kinds[18:-1]}]: a size error is raised / a helper is called in this arm, but not in the `if <sizes differ>: raise` form this rule reads")
                     continue
